@@ -28,16 +28,19 @@ static int pm(int p, const char *s)
 }
 
 /* command lists: ex text and a reference interpretation */
-enum { L_D, L_M1D, L_P1D, L_DOTP1D, L_S1, L_S2, L_PU, L_0PU, L_I, L_A, L_C, L_M1A, L_DPU, L_SM1D, L_GD, L_GS, L_YPU, L_KD, L_C2, L_I2, L_A2, L_CR, L_ZD, L_P9D, L_P1SBA, L_P1SAB, L_M1SBA, NLIST };
+enum { L_D, L_M1D, L_P1D, L_DOTP1D, L_S1, L_S2, L_PU, L_0PU, L_I, L_A, L_C, L_M1A, L_DPU, L_SM1D, L_GD, L_GS, L_YPU, L_KD, L_C2, L_I2, L_A2, L_CR, L_ZD, L_P9D, L_P1SBA, L_P1SAB, L_M1SBA, L_M2M1D, L_M2M1S, L_M1DOTD, NLIST };
 static const char *list_txt[NLIST] = {
 	"d", "-1d", "+1d", ".,+1d", "s/a/b/", "s/a/ab/g", "pu a", "0pu a", "i", "a", "c", "-1a", "d|pu", "s/a/c/|-1d",
 	"g/b/d", "g/a/s/a/b/", "y b|pu b", "ka|'ad", "c", "i", "a", ".,+1c",
 	"'zd", "+9d",		/* rejected at the first execution: the global stops with every other line still marked */
 	"+1s/b/a/", "+1s/a/b/", "-1s/b/a/",	/* change whether a neighbouring line matches: the pattern is tested at the time of the visit */
+	"-2,-1d",	/* removes two lines above the current one: the lines still to be visited move up past the scan position */
+	"-2,-1s/$/x/",	/* leaves the current line two above where the scan stood */
+	"-1,.d",	/* removes the line above and the current one */
 };
-static const int list_blocks[NLIST] = {0, 0, 0, 0, 0, 0, 0, 0, 1, 1, 1, 1, 0, 0, 0, 0, 0, 0, 1, 1, 1, 1, 0, 0, 0, 0, 0};
+static const int list_blocks[NLIST] = {0, 0, 0, 0, 0, 0, 0, 0, 1, 1, 1, 1, 0, 0, 0, 0, 0, 0, 1, 1, 1, 1, 0, 0, 0, 0, 0, 0, 0, 0};
 /* text blocks: single line "x" (or "a" for -1a); the last four lists use two-line blocks whose lines match the patterns */
-static const char *list_block_text[NLIST] = {0, 0, 0, 0, 0, 0, 0, 0, "x\n", "x\n", "x\n", "a\n", 0, 0, 0, 0, 0, 0, "a\nab\n", "a\nb\n", "ab\n\n", "b\n", 0, 0, 0, 0, 0};
+static const char *list_block_text[NLIST] = {0, 0, 0, 0, 0, 0, 0, 0, "x\n", "x\n", "x\n", "a\n", 0, 0, 0, 0, 0, 0, "a\nab\n", "a\nb\n", "ab\n\n", "b\n", 0, 0, 0, 0, 0, 0, 0, 0};
 
 static void subst(struct xm *m, int idx, const char *from, const char *to, int g)
 {
@@ -108,6 +111,37 @@ static int exec_list(struct xm *m, int l)
 			return 0;
 		subst(m, m->cur - 1, "b", "a", 0);
 		return 0;
+	case L_M1DOTD: {
+		struct xcmd c;
+		if (m->cur < 1)
+			return 1;		/* the range starts above the first line: rejected */
+		memset(&c, 0, sizeof(c));
+		c.cmd = XC_D;
+		c.naddr = 2;
+		c.sep = ',';
+		c.a1.type = XA_NONE; c.a1.has_off = 1; c.a1.off = -1;
+		c.a2.type = XA_DOT;
+		return refex_exec(m, &c, nofile);
+	}
+	case L_M2M1D:
+	case L_M2M1S: {
+		struct xcmd c;
+		int i;
+		if (m->cur < 2)
+			return 1;		/* the range reaches above the first line: rejected */
+		if (l == L_M2M1S) {
+			for (i = m->cur - 2; i <= m->cur - 1; i++)
+				strncat(m->ln[i].s, "x", XM_LNSZ - strlen(m->ln[i].s) - 1);
+			return 0;
+		}
+		memset(&c, 0, sizeof(c));
+		c.cmd = XC_D;
+		c.naddr = 2;
+		c.sep = ',';
+		c.a1.type = XA_NONE; c.a1.has_off = 1; c.a1.off = -2;
+		c.a2.type = XA_NONE; c.a2.has_off = 1; c.a2.off = -1;
+		return refex_exec(m, &c, nofile);
+	}
 	case L_ZD: return 1;		/* mark z is never set */
 	case L_P9D: return 1;		/* no buffer here has 9 lines after the current one */
 	case L_D: return rel(m, XC_D, 0, 0, 0, 0, 0, NULL, 0);
